@@ -99,14 +99,16 @@ Definition fileslice_rd (sl : list idx) (shape : list Z) (itemsize offset : Z) (
     Ok (s, concat e)
   end.
 
-(* volumeutils.array_from_file.  mm = "np.memmap was tried" (mmap argument truthy and the file
-   object not a compressed stream); a memmap that cannot be made (file too short) falls
-   through to the read path, which returns a 1-D EMPTY array for a rank-0 or zero-size shape
-   (the `len(shape) == 0` / `n_bytes == 0` early returns) and raises on a short read. *)
+(* volumeutils.array_from_file (as of fix 599d4b17).  mm = "np.memmap was tried" (mmap argument
+   truthy and the file object not a compressed stream); a memmap that cannot be made (file too
+   short) falls through to the read path, which returns a 1-D EMPTY array for a rank-0 shape
+   (`len(shape) == 0`), zeros of the requested shape for a zero-size one (`n_bytes == 0`:
+   np.zeros(shape)), and raises on a short read. *)
 Definition array_from_file (mm : bool) (shape : list Z) (w off : Z) : res (list Z * list (list Z)) :=
   let n_bytes := prod shape * w in
   let read_path :=
-    if (zlen shape =? 0) || (n_bytes =? 0) then Ok ([0], [])
+    if zlen shape =? 0 then Ok ([0], [])
+    else if n_bytes =? 0 then Ok (shape, [])
     else b <- rd off n_bytes ;;
          if zlen b =? n_bytes then Ok (shape, elems_of w b) else Err EIO in
   if mm then
@@ -292,17 +294,13 @@ Context {F R : Type}.
 Variable scale : F -> list Z -> R.
 Variable dF : F.
 
-Definition minc_getitem (swap0d : bool) (shape : list Z) (nscales : Z) (elems : list (list Z)) (facs : list F)
+Definition minc_getitem (shape : list Z) (nscales : Z) (elems : list (list Z)) (facs : list F)
     (ix : list idx) : res (list Z * list R) :=
   c <- canonical_slicers true ix shape ;;                    (* image.data[sliceobj] *)
-  let '(s, raw0) := np_index [] OrdC shape c elems in
-  (* Minc1File.get_scaled_data: `np.asarray(raw_data).view(dtype)`.  An integers-only index
-     (no Ellipsis) makes NumPy return a NATIVE scalar; viewing it with the file's big-endian
-     dtype reverses its bytes on a little-endian host (swap0d = MINC1 on such a host; finding
-     S-C03c).  Arrays — 0-d ones obtained with an Ellipsis included — keep the file's dtype,
-     so the view is the identity for them. *)
-  let scalar := match s with [] => negb (existsb is_ell ix) | _ => false end in
-  let raw := if swap0d && scalar then map (@rev Z) raw0 else raw0 in
+  (* get_scaled_data (as of fix 139e21b4): np.asarray(raw_data).view(dtype with the DATA's own
+     byte order): only the signedness is reinterpreted, the bytes of every element — also of
+     the native scalar an integers-only index yields — are kept *)
+  let '(s, raw) := np_index [] OrdC shape c elems in
   if nscales =? 0 then Ok (s, map (scale (nth 0 facs dF)) raw)
   else
     c' <- canonical_slicers true ix shape ;;                 (* _normalize re-canonicalises *)
